@@ -15,8 +15,6 @@ STATIC_THEOREMS = [
 def commands(rng, s):
     """one random command of the history grammar; returns (name, result)"""
     a = s.arr
-    if rng.chance(1, 12):
-        return 'fix range', s.run('fix', *rng.choice([['-S', str(rng.below(3)), '-B', str(1 + rng.below(3))], ['-B', str(1 + rng.below(4))]]))
     k = rng.below(20)
     if getattr(s, 'churn', False):
         k = rng.choice([0, 0, 5, 5, 5, 8, 9, 14])
@@ -40,8 +38,7 @@ def commands(rng, s):
         plan = rng.choice(['full', 'new', 'bad', '50', '100'])
         return 'scrub', s.run('scrub', '-p', plan, *(['-o', '0'] if plan.isdigit() else []))
     if k < 18:
-        # incl. fix restricted to a block range (the range is a filter like the others: nothing outside it may change)
-        return 'fix', s.run('fix', *rng.choice([[], ['-e'], ['-f', 'base0/'], ['-d', a.disks[0]], ['-S', str(rng.below(3)), '-B', str(1 + rng.below(3))], ['-B', str(1 + rng.below(4))]]))
+        return 'fix', s.run('fix', *rng.choice([[], ['-e'], ['-f', 'base0/'], ['-d', a.disks[0]]]))
     if k < 19:
         return 'touch', s.run('touch')
     return 'rehash', s.run('rehash')
@@ -61,6 +58,7 @@ def one_history(exe, root, seed, steps, chk, stats):
     r = s.sync(*force)
     for step in range(steps):
         s.fs_random(1 + rng.below(5))
+        heal = None
         if rng.chance(1, 5):
             # a silent error: one byte of a file changes, size and time-stamp stay (the harness keeps the recorded bytes)
             # only in files that are recorded and fully hashed as they are now: changing a file that was never read by a
@@ -83,10 +81,8 @@ def one_history(exe, root, seed, steps, chk, stats):
                 os.utime(p0, ns=(st0.st_mtime_ns, st0.st_mtime_ns))
                 s.log('silent error in %s/%r at offset %d (for the next command only)' % (d0, r0, off)); stats['silent_errors'] = stats.get('silent_errors', 0) + 1
                 heal = (p0, off, c, st0)
-        else:
-            heal = None
         name, r = commands(rng, s)
-        if locals().get('heal'):
+        if heal:
             # the error is taken back after the command (the harness tracks file versions by path, size and time-stamp: a
             # corrupted file that is later moved or copied would be taken for a new version)
             p0, off, c, st0 = heal
@@ -107,6 +103,31 @@ def one_history(exe, root, seed, steps, chk, stats):
             a.destroy()
             return ('after command %r (%s): %s' % (name, cfg, pr[0]), 'config: %s\nproblems:\n%s\nhistory:\n%s' % (cfg, '\n'.join(pr[:10]), hist))
     a.destroy()
+    return None
+
+def ranged_fix(exe, root, seed, stats):
+    """fix restricted to a block range (-S/-B) on a fully synced array, healthy or with one silently changed block inside or
+    outside the range: afterwards the parity files still hold every synced stripe and the C06 invariant holds.  (Ranged fix
+    is kept out of the random histories: on files changed since the sync it leaves files that carry the recorded time-stamp
+    with other bytes in the blocks outside the range, which the harness cannot follow through later moves and copies.)"""
+    rng = e2e.Rng(seed)
+    a = e2e.Arr(root, exe, ndisks=1 + rng.below(3), nparity=1 + rng.below(3), hashsize=rng.choice([16, 8]), splits=rng.choice([1, 1, 2, 3]), ncontent=1)
+    s = sim.Sim(a, rng.fork(), weird_names=False)
+    s.populate(3 + rng.below(3))
+    if s.sync().rc != 0:
+        a.destroy(); return None
+    dec = fx.decode(a)
+    if rng.chance(1, 2):
+        lay = fx.Layout(a, dec)
+        if lay.blocks: fx.flip_data_block(a, rng, rng.choice(lay.blocks))
+    args = rng.choice([['-S', str(rng.below(3)), '-B', str(1 + rng.below(3))], ['-B', str(1 + rng.below(4))], ['-S', str(max(0, dec.blockmax - 2))]])
+    r = a.cmd('fix', *args)
+    stats['ranged_fix'] = stats.get('ranged_fix', 0) + 1
+    pr, st = s.invariant_problems()
+    cfg = 'ranged-fix ndisks=%d nparity=%d splits=%d blockmax=%d args=%s seed=%d' % (a.ndisks, a.nparity, a.splits, dec.blockmax, ' '.join(args), seed)
+    a.destroy()
+    if pr:
+        return ('after fix %s on a synced array (%s): %s' % (' '.join(args), cfg, pr[0]), cfg + '\n' + '\n'.join(pr[:10]))
     return None
 
 def comeback_history(exe, root, seed, stats):
@@ -183,7 +204,7 @@ def main(tier, seed):
         import chk_C10
         return nhist + ncb + i, chk_C10.emptied_disk_history(exe, os.path.join(vlib.scratch(), 'em%d' % i), seed * 100000 + 8000 + i, stats)
     with ThreadPoolExecutor(vlib.NCPU) as ex:
-        res = list(ex.map(job, range(nhist))) + list(ex.map(job2, range(ncb))) + list(ex.map(job3, range(nem)))
+        res = list(ex.map(job, range(nhist))) + list(ex.map(job2, range(ncb))) + list(ex.map(job3, range(nem))) + list(ex.map(lambda i: (nhist + ncb + nem + i, ranged_fix(exe, os.path.join(vlib.scratch(), 'rf%d' % i), seed * 100000 + 9000 + i, stats)), range(24 if tier == 'quick' else 240)))
     nbad = 0
     for i, r in res:
         if r:
@@ -195,7 +216,7 @@ def main(tier, seed):
             chk.violation('C06 static obligation failed: ' + o[0], o[0] + '\n' + o[2], False, 'static')
     chk.evaluations = stats.get('checked_levels', 0)
     chk.distinct = stats.get('synced_stripes', 0)
-    chk.rule = ('%d seeded histories x %d commands from {sync, -B, -S -B, kill-after-sync, -h, -F, -R, forced autosave, scrub, fix (filtered), touch, rehash} interleaved with 1-5 random file operations; after EVERY command the content file is decoded by the Lean decoder and, for every stripe whose allocated blocks are all BLK, parity of every level is recomputed by the Lean genSpec from the harness version store and compared with the parity files; extent well-formedness checked on the decoded map. plus %d emptied-disk histories (partial sync -E -B k after a disk lost all its files) and %d come-back histories (files deleted, parity updated by a sync killed before the content save, the same bytes restored, plain sync). evaluations = stripe-levels compared, distinct_nontrivial = fully synced stripes examined; the histories include fix restricted to a block range and silent errors (one byte of a fully hashed file, for one command)' % (nhist, steps, nem, ncb))
+    chk.rule = ('%d seeded histories x %d commands from {sync, -B, -S -B, kill-after-sync, -h, -F, -R, forced autosave, scrub, fix (filtered), touch, rehash} interleaved with 1-5 random file operations; after EVERY command the content file is decoded by the Lean decoder and, for every stripe whose allocated blocks are all BLK, parity of every level is recomputed by the Lean genSpec from the harness version store and compared with the parity files; extent well-formedness checked on the decoded map. plus %d emptied-disk histories (partial sync -E -B k after a disk lost all its files) and %d come-back histories (files deleted, parity updated by a sync killed before the content save, the same bytes restored, plain sync). evaluations = stripe-levels compared, distinct_nontrivial = fully synced stripes examined; the histories include silent errors (one byte of a fully hashed file, for one command); plus directed fixes restricted to a block range on fully synced arrays' % (nhist, steps, nem, ncb))
     chk.samples = [dict(stats)]
     chk.corr['E2E-INV'] = {k: v for k, v in stats.items() if k != 'commands'}
     chk.extra['command_distribution'] = stats['commands']
